@@ -717,14 +717,29 @@ package storage
 
 // ---- write-ahead log (C02 C03) ----
 
+// Little-endian readers over the byte-level buffer model (/verif/stubs/io.spec, govc/streams.go).
+//@ spec func le16(b *bytes.Buffer, p int) int { bufdata(b,p) + 256*bufdata(b,p+1) }
+//@ spec func le32(b *bytes.Buffer, p int) int { bufdata(b,p) + 256*bufdata(b,p+1) + 65536*bufdata(b,p+2) + 16777216*bufdata(b,p+3) }
+//@ spec func le64(b *bytes.Buffer, p int) int { le32(b,p) + 4294967296*le32(b,p+4) }
+// A log record laid out at position p of buffer b: op(1) LSN(8) page(8) cell(4) len(4) value(len).
+//@ spec pred walImage(w *WALEntry, b *bytes.Buffer, p int) {
+//@     bufdata(b,p) == w.WALOp && le64(b,p+1) == w.LSN && le64(b,p+9) == w.pageID && le32(b,p+17) == w.cellID &&
+//@     le32(b,p+21) == len(w.val) && (forall k int :: 0 <= k && k < len(w.val) ==> bufdata(b,p+25+k) == w.val[k]) }
+
 //@ func (w *WALEntry) encode() (*bytes.Buffer, error)
 //@   props C02 C03
-//@   ensures[buf] err == nil ==> result0 != nil && fresh(result0)
+//@   requires len(w.val) <= 4294967295
+//@   ensures[buf] err == nil && result0 != nil && fresh(result0)
+//@   ensures[image; C03] bufr(result0) == 0 && bufw(result0) == 25 + len(w.val) && walImage(w, result0, 0)
 
 //@ func (w *WALEntry) decode(buf *bytes.Buffer) error
 //@   props C02 C03
 //@   requires buf != nil
-//@   modifies w.WALOp, w.LSN, w.pageID, w.cellID, w.val, bufver(buf)
+//@   modifies w.WALOp, w.LSN, w.pageID, w.cellID, w.val, bufver(buf), bufr(buf)
+//@   ensures[bytes.kept] forall k int :: bufdata(buf,k) == old(bufdata(buf,k))
+//@   ensures[complete; C03] old(bufw(buf) - bufr(buf)) >= 25 && old(bufw(buf) - bufr(buf)) >= 25 + old(le32(buf, bufr(buf)+21)) ==>
+//@              result == nil && walImage(w, buf, old(bufr(buf))) && bufr(buf) == old(bufr(buf)) + 25 + len(w.val)
+//@   ensures[short; C03] old(bufw(buf) - bufr(buf)) < 25 ==> result != nil
 
 //@ func (w *wal) read() (WALBatch, error)
 //@   props C02 C03
@@ -950,3 +965,56 @@ package storage
 //@   ensures[L3; C02] err == nil ==> len(result0) == 1 && result0[0].LSN == old(rs.fs._nextLSN) && result0[0].cellID == rowID && result0[0].WALOp == OpDelete
 //@   ensures[err; C14] err != nil ==> len(result0) == 0 && rs.fs._nextLSN == old(rs.fs._nextLSN)
 //@   ensures[err.frame; C14] err != nil ==> forall c *leafCell :: c.deleted == old(c.deleted)
+
+// ---- page codec (C12) ----
+// "The abstract page": a family of uninterpreted functions standing for the logical content of an arbitrary page.
+// Contracts that mention them are proved for every interpretation, hence for the content of any node.
+// Internal page: header(29) = kind(1) fileOffset(8) lastLSN(8) rightOffset(8) count(4); offsets(2 each); freeSize(2); gap;
+// cells in slot order at the end of the page: key(4) child(8).
+//@ spec abstract aiFileOffset() uint64
+//@ spec abstract aiLSN() uint64
+//@ spec abstract aiRight() uint64
+//@ spec abstract aiCnt() int
+//@ spec abstract aiOff(i int) uint16
+//@ spec abstract aiKey(i int) uint32
+//@ spec abstract aiChild(i int) uint64
+//@ spec func aiFree() int { 4096 - 31 - 14*aiCnt() }
+//@ spec pred aiWF() { 0 <= aiCnt() && aiCnt() <= maxInternal &&
+//@        (forall i int :: 0 <= i && i < aiCnt() ==> aiOff(i) < aiCnt()) &&
+//@        (forall i, j int :: 0 <= i && i < j && j < aiCnt() ==> aiOff(i) != aiOff(j)) }
+//@ spec pred intIs(n *btreeNode) { n.fileOffset == aiFileOffset() && n.lastLSN == aiLSN() && n.rightOffset == aiRight() && cnt(n) == aiCnt() &&
+//@        (forall i int :: 0 <= i && i < aiCnt() ==> n.offsets[i] == aiOff(i) && ic(n,i).key == aiKey(i) && ic(n,i).fileOffset == aiChild(i)) }
+//@ spec pred intHdr(b *bytes.Buffer, p int) { bufdata(b,p) == 0 && le64(b,p+1) == aiFileOffset() && le64(b,p+9) == aiLSN() && le64(b,p+17) == aiRight() && le32(b,p+25) == aiCnt() }
+//@ spec pred intOffs(b *bytes.Buffer, p int, m int) { forall i int :: 0 <= i && i < m ==> le16(b, p+29+2*i) == aiOff(i) }
+//@ spec pred intCells(b *bytes.Buffer, c int, m int) { forall i int :: 0 <= i && i < m ==> le32(b, c+12*i) == aiKey(i) && le64(b, c+12*i+4) == aiChild(i) }
+//@ spec pred intImage(b *bytes.Buffer, p int) { intHdr(b,p) && intOffs(b,p,aiCnt()) && le16(b, p+29+2*aiCnt()) == aiFree() && intCells(b, p+31+2*aiCnt()+aiFree(), aiCnt()) }
+
+//@ func (n *btreeNode) encodeInternal() (*bytes.Buffer, error)
+//@   props C12
+//@   requires slotsOK(n) && !n.isLeaf && cnt(n) <= maxInternal
+//@   ensures[total; C12] err == nil && result0 != nil && fresh(result0)
+//@   ensures[onepage; C12] bufr(result0) == 0 && bufw(result0) == 4096
+//@   ensures[image; C12] intIs(n) ==> intImage(result0, 0)
+//@   loop 1 invariant 0 <= i && i <= cnt(n) && bufr(buf) == 0 && bufw(buf) == 29 + 2*i
+//@   loop 1 invariant[hdr] intIs(n) ==> intHdr(buf,0) && intOffs(buf,0,i)
+//@   loop 2 invariant 0 <= i && i <= cellCount && cellCount == cnt(n) && bufr(bufFooter) == 0 && bufw(bufFooter) == 12*i && bufFooter != buf
+//@   loop 2 invariant bufr(buf) == 0 && bufw(buf) == 29 + 2*cnt(n)
+//@   loop 2 invariant[hdr] intIs(n) ==> intHdr(buf,0) && intOffs(buf,0,cnt(n)) && intCells(bufFooter, 0, i)
+
+//@ func (n *btreeNode) decodeInternal(buf *bytes.Buffer) error
+//@   props C12
+//@   requires buf != nil && aiWF() && len(n.offsets) == 0 && cap(n.offsets) == 0
+//@   requires bufw(buf) - bufr(buf) >= 4096 && intImage(buf, bufr(buf))
+//@   modifies n.fileOffset, n.lastLSN, n.rightOffset, n.offsets, n.freeSize, n.internalCells, bufr(buf), bufver(buf)
+//@   ensures[total; C12] result == nil && bufr(buf) == old(bufr(buf)) + 4096
+//@   ensures[content; C12] intIs(n)
+//@   ensures[shape; C12] len(n.internalCells) == aiCnt() && (forall i int :: 0 <= i && i < aiCnt() ==> ic(n,i) != nil)
+//@   loop 1 invariant 0 <= i && i <= cellCount && cellCount == aiCnt() && len(n.offsets) == i && bufr(buf) == old(bufr(buf)) + 29 + 2*i && bufw(buf) == old(bufw(buf))
+//@   loop 1 invariant (i == 0 ? cap(n.offsets) == 0 : fresh(n.offsets))
+//@   loop 1 invariant forall j int :: 0 <= j && j < i ==> n.offsets[j] == aiOff(j)
+//@   loop 1 invariant n.fileOffset == aiFileOffset() && n.lastLSN == aiLSN() && n.rightOffset == aiRight()
+//@   loop 2 invariant 0 <= i && i <= cellCount && cellCount == aiCnt() && len(n.offsets) == cellCount && len(n.internalCells) == cellCount && fresh(n.internalCells)
+//@   loop 2 invariant bufr(buf) == old(bufr(buf)) + 4096 - 12*aiCnt() + 12*i && bufw(buf) == old(bufw(buf))
+//@   loop 2 invariant forall j int :: 0 <= j && j < cellCount ==> n.offsets[j] == aiOff(j)
+//@   loop 2 invariant forall j int :: 0 <= j && j < i ==> allocated(n.internalCells[aiOff(j)]) && n.internalCells[aiOff(j)].key == aiKey(j) && n.internalCells[aiOff(j)].fileOffset == aiChild(j)
+//@   loop 2 invariant n.fileOffset == aiFileOffset() && n.lastLSN == aiLSN() && n.rightOffset == aiRight()
